@@ -35,7 +35,20 @@ MODELLED_NOT_VERIFIED = [
 ]
 
 SOH = b"\x01"
-PAIRS = [("T", "S"), ("S", "T"), ("A", "B"), ("", ""), ("a", "B"), ("é", "ü"), ("T ", "S"), ("B", "A")]
+PAIRS = [("T", "S"), ("S", "T"), ("A", "B"), ("", ""), ("a", "B"), ("é", "ü"), ("T ", "S"), ("B", "A"),
+         ("t", "s"), ("É", "Ü"), ("T", "S\x00"), ("a", "b")]
+# families of CompID pairs that are equal only under some looser comparison (letter case, trailing blanks,
+# embedded NUL, Unicode case / normalisation): the journal must keep them apart
+NEAR = [
+    [("broker", "client"), ("BROKER", "CLIENT"), ("Broker", "client"), ("broker", "CLIENT")],
+    [("T", "S"), ("t", "s"), ("T", "s")],
+    [("T", "S"), ("T ", "S"), ("T", "S "), (" T", "S")],
+    [("T", "S"), ("T\x00", "S"), ("T", "S\x00x")],
+    [("é", "ü"), ("É", "Ü"), ("e\u0301", "u\u0308")],
+    [("ß", "x"), ("ss", "x"), ("ẞ", "x"), ("SS", "x")],
+    [("ı", "K"), ("i", "K"), ("I", "K"), ("İ", "K")],
+    [("1", "2"), ("01", "2"), ("1.0", "2"), ("١", "2")],
+]
 I63 = 2**63
 
 
@@ -568,12 +581,16 @@ class Ref:
 
 def oracle_sequence(rng, maxlen):
     """clean ops only: valid frames with known in-range numbers, handles from the journal"""
-    pairs = [("T", "S"), ("S", "T"), rng.choice(PAIRS[2:])]
+    if rng.random() < 0.5:
+        fam = rng.choice(NEAR)
+        pairs = rng.sample(fam, rng.randint(2, min(4, len(fam)))) + [("S", "T")]
+    else:
+        pairs = [("T", "S"), ("S", "T"), rng.choice(PAIRS[2:])]
     ops = [("col",) + p for p in pairs]
     st = {"desc": rng.choice([30, 2**31 + 9, 2**62 + 9])}
     for _ in range(rng.randint(4, maxlen)):
         v = rng.random()
-        sid = rng.randint(1, 3)
+        sid = rng.randint(1, len(pairs))
         if v < 0.5:
             n = pick_num(rng, st)
             while not (-I63 <= n < I63):
@@ -590,7 +607,68 @@ def oracle_sequence(rng, maxlen):
             ops.append(("rec", sid, rng.randint(0, 1), lo, hi))
         else:
             ops.append(("col",) + rng.choice(pairs))
+    ops.append(("col",) + rng.choice(pairs))   # every sequence re-loads at least one existing pair
     return ops
+
+
+def strict_seq(msg):
+    """the number of a frame by the strictest reading (first \\x0134=, plain ASCII digits with optional '-', SOH);
+    None when the frame needs any leniency – such frames are left out of converted sequences"""
+    i = msg.find(b"\x0134=")
+    if i < 0:
+        return None
+    j = msg.find(b"\x01", i + 1)
+    if j < 0:
+        return None
+    t = msg[i + 4:j]
+    body = t[1:] if t[:1] == b"-" else t
+    if not body or not body.isdigit() or not body.isascii() or (len(body) > 1 and body[:1] == b"0"):
+        return None
+    n = int(t)
+    return n if -I63 <= n < I63 else None
+
+
+def convert(ops):
+    """a sequence of the correspondence generator (as found in a disagreement) -> the clean vocabulary of the oracle:
+    handle slots are resolved to the session they *should* denote (exact CompID pair -> id in creation order);
+    calls the reference cannot judge (lenient / invalid frames, fabricated or foreign handles, text or out-of-range
+    bounds, numbers beyond 64 bits) are dropped.  The create/load structure – all CompID pairs, in order – is kept."""
+    ids, pool, out = {}, [], []
+
+    def slot(ref):
+        if not pool:
+            return None
+        return pool[ref] if ref < len(pool) else pool[ref % len(pool)]
+
+    rng_ok = lambda x: isinstance(x, int) and not isinstance(x, bool) and -I63 <= x < I63  # noqa
+    for op in ops:
+        k = op[0]
+        if k == "col":
+            pair = (op[1], op[2])
+            ids.setdefault(pair, len(ids) + 1)
+            pool.append(ids[pair])
+            out.append(("col", op[1], op[2]))
+        elif k == "sessions":
+            pool.extend(ids.values())
+        elif k == "fab":
+            pool.append(None)
+        elif k == "persist":
+            sid, n = slot(op[1]), strict_seq(bytes.fromhex(op[3]))
+            if sid is not None and n is not None:
+                out.append(("persist", sid, op[2], n, op[3]))
+        elif k == "set":
+            sid = slot(op[1])
+            if sid is not None and all(v is None or (rng_ok(v) and 0 < v and rng_ok(v - 1)) for v in op[2:4]):
+                out.append(("set", sid, op[2], op[3]))
+        elif k == "rec":
+            sid = slot(op[1])
+            if sid is not None and rng_ok(op[3]) and rng_ok(op[4]):
+                out.append(("rec", sid, op[2], op[3], op[4]))
+        elif k == "rec1":
+            sid = slot(op[1])
+            if sid is not None and rng_ok(op[3]):
+                out.append(("rec", sid, op[2], op[3], op[3]))
+    return out
 
 
 def oracle_run(ops):
@@ -617,9 +695,9 @@ def oracle_run(ops):
             a = ses.get((t, s))
             b = j.create_or_load(t, s)
             if a is None or (a.next_num_out, a.next_num_in) != (b.next_num_out, b.next_num_in) or a.key != b.key:
-                fails.append(("C13-load-paths-disagree", "sessions() and create_or_load() report different numbers",
-                              {"where": where, "pair": [t, s], "sessions": a and [a.next_num_out, a.next_num_in],
-                               "create_or_load": [b.next_num_out, b.next_num_in]}))
+                fails.append(("C13-load-paths-disagree", "sessions() and create_or_load() report a different session / different numbers for the same CompID pair",
+                              {"where": where, "pair": [t, s], "sessions": a and [a.key, a.next_num_out, a.next_num_in],
+                               "create_or_load": [b.key, b.target_comp_id, b.sender_comp_id, b.next_num_out, b.next_num_in]}))
             if (b.next_num_out, b.next_num_in) != (o + 1, i + 1):
                 fails.append(("C13-counter-mismatch", "stored next numbers differ from the reference counters",
                               {"where": where, "pair": [t, s], "expected": [o + 1, i + 1], "observed": [b.next_num_out, b.next_num_in]}))
@@ -723,8 +801,21 @@ def oracle(ctx, disagreements, broken):
     n = ctx.n(300, 1500) * (6 if broken else 1)
     failures, runs = [], 0
     seen = set()
-    for i in range(n):
-        ops = WITNESS if i == 0 else oracle_sequence(ctx.rng, 14 if not broken else 24)
+    # (a) the sequences on which model and implementation disagreed, first (converted to the clean vocabulary),
+    # (b) the witness of the fixed set_seq_num finding, (c) fresh sequences
+    first = []
+    for d in disagreements[:40]:
+        inp = d.get("input") if isinstance(d, dict) else None
+        if isinstance(inp, dict) and inp.get("ops"):
+            try:
+                conv = convert([tuple(o) for o in inp["ops"]])
+            except Exception:  # noqa
+                continue
+            if conv:
+                first.append(conv)
+    first.append(WITNESS)
+    for i in range(len(first) + n):
+        ops = first[i] if i < len(first) else oracle_sequence(ctx.rng, 14 if not broken else 24)
         runs += 1
         for sig, what, detail in oracle_run(ops):
             if sig in seen:
@@ -736,7 +827,8 @@ def oracle(ctx, disagreements, broken):
                              "expected": "agreement with the reference map", "observed": det[0][2] if det else detail})
         if len(seen) >= 5:
             break
-    ctx.oracle_stats = {"sequences": runs, "failures": len(failures), "searched_harder": bool(broken)}
+    ctx.oracle_stats = {"sequences": runs, "from_disagreements": len(first) - 1, "failures": len(failures),
+                        "searched_harder": bool(broken)}
     return failures
 
 
